@@ -200,6 +200,25 @@ func rwApply(w *rwWorld, o rwOp) {
 		}
 	case "break":
 		rwBreak(w, o)
+	case "move":
+		// the target cluster re-establishes the stream of shard I and the load balancer hands it to another proxy
+		// instance (N), while the previous incarnation on the old instance is still open or shutting down
+		if len(w.nodes) < 2 {
+			return
+		}
+		j := o.I % len(w.targets)
+		old := w.liveT(j)
+		w.tgtAt[j] = o.N
+		w.classes["target_stream_moved_to_another_instance"]++
+		if old != nil {
+			old.ended = true
+			w.targets[j].connected = false
+		}
+		w.open("T", j)
+		if old != nil {
+			old.ss.Kill() // the old stream goes away once the new one is up
+			vfQuiesce()
+		}
 	}
 }
 
@@ -595,6 +614,9 @@ func rwGenFault(t *rapid.T, c rwCase) rwOp {
 	n := c.NS
 	if side == "T" {
 		n = c.NT
+	}
+	if c.Nodes > 1 && rapid.IntRange(0, 3).Draw(t, "move") == 0 {
+		return rwOp{K: "move", Side: "T", I: rapid.IntRange(0, c.NT-1).Draw(t, "mi"), N: rapid.IntRange(0, c.Nodes-1).Draw(t, "mn")}
 	}
 	op := rwOp{K: "break", Side: side, I: rapid.IntRange(0, n-1).Draw(t, "bi"), How: rapid.SampledFrom([]string{"recvErr", "recvEOF", "sendErr", "cancel", "cancel"}).Draw(t, "how")}
 	// (not with several instances: the intra-proxy receiver retries a send into a closed-but-registered channel in a
